@@ -139,9 +139,9 @@ def s3(ck, an):
     fm = an.fa("Rebalancing.make_trades")
     for c in [c for c in fm.calls_to("Trade.__init__") if isinstance(c, ast.Call)]:
         kw = {k.arg: fm.sym.canon(k.value) for k in c.keywords}
-        ctr = kw.get("contract", "?")
+        ctr_src = next((ast.unparse(k.value) for k in c.keywords if k.arg == "contract"), "None")
         for side in ("bid_price", "ask_price"):
-            w = f"broker.exchange[{ctr}].{side}"
+            w = specv(fm, f"broker.exchange[{ctr_src}].{side}", fm.node_of(c).id).key()      # the traded contract's own book, spelled with the call's own contract argument
             ck.check(kw.get(side) == w, "ARGFLOW", f"S3.trade-gets-{side}", fm.f.short, fm.loc(c), f"Trade({side}=) is the traded contract's current {side}",
                      f"Trade({side}=) is {kw.get(side)}, expected {w}", construct=f"{side}=" + str(kw.get(side)))
 
